@@ -98,10 +98,10 @@ PROPS = {
    'must_reach': ['visit_checked'],
  },
  'C07': {
-   'families': [('c07_random', 1, ALL)],
+   'families': [('c07_random', 1, ALL), ('c07_threadstart', 1, ALL)],
    'jobgen': c07.jobgen,
    'level': 'fault_enumeration',
-   'runs': {'quick': 600, 'thorough': 60000},
+   'runs': {'quick': 900, 'thorough': 60000},
    'budget_s': {'quick': 150, 'thorough': 2400},
    'rule': 'for every base workload (c07_base variants: small churn, page fill, medium+large, huge, aligned-huge, two threads with exit, arena too small, overcommit off, arena_eager_commit=0, eager_commit=0) the OS calls of a fault-free run are enumerated and EVERY call inside an operation is refused once (single) and from there on until heal_os (persistent): that inner loop is exhaustive; bases, option sets and the additional random multi-fault plans (c07_random) are sampled. non-trivial = at least one injected fault actually fired; distinct = distinct event hash',
    'nontrivial': lambda r: r.get('faults_fired', 0) > 0, 'distinct_by': 'event',
